@@ -39,8 +39,11 @@ def need_opts():
 
 def build(case):
     frames = []
+    gates = case.get("gates") or {}
     for f in case["frames"]:
         st = [P.rec("m.%s.en" % f["name"], "enter")]
+        if f["name"] in gates:      # entry guard: the frame can be entered from tick gates[name] - 1 on (.g counts ticks)
+            st.insert(0, {"v": "let", "needs": [P.cmp(".g", ">=", gates[f["name"]])]})
         st.append(P.go(f["far"], [f["need"]] if f["need"] else []))
         frames.append(P.frame(f["name"], st))
     plan = case["plan"]            # list of (tick, value)
@@ -61,7 +64,13 @@ def build(case):
     dframes.append(P.frame("dfin", [{"v": "bid", "ctl": "stop", "who": ["all"], "ctx": None}]))
     drv = P.framer("drv", dframes, order=case["writer"])
     m = P.framer("m", frames)
-    return P.program([P.house("h", [drv, m], inits=[[".w", {"value": 0}]])])
+    framers = [drv, m]
+    inits = [[".w", {"value": 0}]]
+    if gates:
+        gk = P.framer("gk", [P.frame("g0", [{"v": "inc", "dst": ".g", "data": {"value": 1}, "ctx": "recur"}])], order="front")
+        framers.insert(0, gk)
+        inits.append([".g", {"value": 0}])
+    return P.program([P.house("h", framers, inits=inits)])
 
 
 def model(case):
@@ -110,7 +119,9 @@ def model(case):
     active = names[0]
     out = []
     ambiguous = False
-    stats = {"taken": 0, "refused": 0, "same_tick_entry": 0, "same_tick_transit": 0, "before_first_mark": 0}
+    stats = {"taken": 0, "refused": 0, "same_tick_entry": 0, "same_tick_transit": 0, "before_first_mark": 0,
+             "guard_refused_marker_transition": 0, "guard_refused": 0}
+    gates = case.get("gates") or {}
 
     def enter(name, t):
         for key, kind in entry_marks.get(name, []):
@@ -143,8 +154,15 @@ def model(case):
                     stats["refused"] += 1
                     if n["n"] == "updated" and mk and upd is not None and upd == mk["tick"]:
                         stats["same_tick_transit"] += 1
+            far = names[(names.index(active) + 1) % len(names)] if f["far"] == "next" else (active if f["far"] == "me" else f["far"])
+            if take and far in gates and t + 1 < gates[far]:
+                # the target's entry guard refuses the transition: nothing happens, in particular the mark guarding the
+                # transition is not reset (C08: a refused transition runs none of its transit actions)
+                take = False
+                stats["guard_refused"] += 1
+                if n:
+                    stats["guard_refused_marker_transition"] += 1
             if take:
-                far = names[(names.index(active) + 1) % len(names)] if f["far"] == "next" else (active if f["far"] == "me" else f["far"])
                 if n:
                     reset(keyof(f, n), n["n"], t, "transit")
                 active = far
@@ -227,25 +245,35 @@ def run(ctx):
         ctx.extra["two_frame_grid_exhaustive"] = True
     rng = ctx.rng
     for i in range(ctx.pick(600, 12000)):
-        nfr = rng.choice([2, 3])
-        names = ["A", "B", "C"][:nfr]
-        frames = []
-        for nm in names:
-            need = rng.choice(opts)
-            if need:
-                need = dict(need)
-                if need.get("frame") in ("A", "B") and rng.random() < 0.3 and nfr == 3:
-                    need["frame"] = "C"
-            far = rng.choice(["next", "next", "me"] + names)
-            if far == "next":
-                far = names[(names.index(nm) + 1) % nfr]
-            frames.append({"name": nm, "far": far, "need": need})
-        plan = sorted(set((rng.randint(1, TICKS - 2), rng.choice([0, 1, 1, 2])) for _ in range(rng.randint(0, 6))))
-        seen = set()
-        plan = [p for p in plan if not (p[0] in seen or seen.add(p[0]))]
-        cases.append({"frames": frames, "plan": plan, "writer": rng.choice(["front", "back"])})
+        cases.append(random_case(rng, opts))
     n = 16
     ctx.shard([{"cases": cases[i::n]} for i in range(n)], timeout=ctx.pick(300, 1500))
     for k in ("taken", "refused", "same_tick_entry", "same_tick_transit", "before_first_mark", "need_updated", "need_changed",
-              "with_in_frame", "with_by"):
+              "with_in_frame", "with_by", "guard_refused_marker_transition"):
         ctx.floor(k, 20)
+
+
+def random_case(rng, opts, gated=None):
+    """one random history; gated=True forces entry guards on the later frames and marker needs on every frame"""
+    nfr = rng.choice([2, 3])
+    names = ["A", "B", "C"][:nfr]
+    frames = []
+    for nm in names:
+        need = rng.choice(opts[1:] if gated else opts)
+        if need:
+            need = dict(need)
+            if need.get("frame") in ("A", "B") and rng.random() < 0.3 and nfr == 3:
+                need["frame"] = "C"
+        far = rng.choice(["next", "next", "me"] + names)
+        if far == "next":
+            far = names[(names.index(nm) + 1) % nfr]
+        frames.append({"name": nm, "far": far, "need": need})
+    plan = sorted(set((rng.randint(1, TICKS - 2), rng.choice([0, 1, 1, 2])) for _ in range(rng.randint(0, 6))))
+    seen = set()
+    plan = [p for p in plan if not (p[0] in seen or seen.add(p[0]))]
+    gates = {}
+    if gated or rng.random() < 0.4:
+        for nm in names[1:]:
+            if gated or rng.random() < 0.6:
+                gates[nm] = rng.randint(2, TICKS - 3)
+    return {"frames": frames, "plan": plan, "writer": rng.choice(["front", "back"]), "gates": gates}
